@@ -16,7 +16,7 @@ def nontrivial(case, info, qk, row):
 def run(ctx):
     count = 250 if ctx.tier == "quick" else 5000
     cases = answers.load_corpus("C02")
-    cases += answers.gen_cases(ctx, count, (1, 6), (1, 7), [False])
+    cases += answers.gen_cases(ctx, count, (1, 6), (1, 7), [False], rekey=0.3, big=0.08)
     if ctx.tier == "thorough":
         ex = answers.exhaustive_cases(ctx, [False])
         ctx.notes.append(f"exhaustive small scope: all one-conditional bases over the 16 truth tables on 2 atoms and all two-conditional bases "
